@@ -22,13 +22,14 @@ REQUIRED = [
     "fact_comparisons_exact", "fact_exists_key", "fact_background_jobs", "fact_wiring", "fact_store_guards_credential_id",
     # deepening round 2026-09-28: node layer (Props/C16Node.lean)
     "fact_status_table", "fact_verify_returns", "fact_routing_order", "fact_cycle_detected", "fact_load_definitions",
-    "fact_api_timestamp_default", "fact_update_all_shape", "fact_validated_only_after_verification",
+    "fact_api_timestamp_default", "fact_update_all_shape", "fact_update_cycle_order", "fact_validated_only_after_verification",
     "configure_sound", "configure_server_subset", "configure_rejects_unknown_server_id", "configure_key_id", "route_after_configure",
     "node_register_refines", "node_register_frame", "node_refusal_changes_nothing", "node_unserved_request",
     "node_listed_sound", "node_lists_wellformed", "unserved_lists_stay_empty", "configured_node_lists_addressed",
     "api_register_201_iff", "api_register_created_iff_acceptable", "refusal_status_codes", "apiGet_default", "rowsAfterInt_ofNat",
     "get_from_nonpositive_returns_all", "node_get_served", "updateAll_no_early_exit",
     "client_flags_iff_verified", "retraction_unverifiable_once_stored", "forged_retraction_never_flagged",
+    "fact_query_columns", "searchQ_sublist_search", "searchQ_empty_query", "searchQ_antitone", "search_with_query_sound",
     "credential_without_id_refused", "fact_set_timestamp_unconditional", "overlapping_polls_heal", "overlapping_polls_can_diverge", "overlapping_poll_across_wipe_diverges", "fact_start_keeps_service_records", "restart_is_identity",
 ]
 
@@ -363,6 +364,47 @@ def node_leg(ctx, binary, replay=None):
                         and not any(r["subject"] == vp["signer"][0] and r["id"] == vp.get("id") for r in prev.get(sid, {"rows": []})["rows"]):
                     flag("acceptable-registration-refused", f"list {sid} refused ({outc}) a registration that satisfies its definition", i)
             lists = now_lists
+        elif kind == "nsearchq":
+            q = [(t["k"], t["v"]) for t in op.get("query", [])]
+            dist["nsearchq:" + ("unknown" if sid not in conf["all"] else "+".join(k.split(".")[-1] + ("~" if "*" in v else "=") for k, v in q) or "empty")] += 1
+            if (line == "nsearchq not-found") != (sid not in conf["all"]):
+                flag("search-service-check-wrong", f"Search({sid}, {q}) -> {line}", i)
+            elif sid in conf["all"]:
+                if not line.startswith("nsearchq ["):
+                    flag("search-with-query-failed", f"Search({sid}, {q}) -> {line}", i)
+                    continue
+                got = set(line[len("nsearchq ["):-1].split())
+                cur = lists.get(sid, {"rows": []})
+                cols = {"id": "id", "issuer": "issuer", "type": "type", "credentialSubject.id": "subjectId"}
+
+                def term_ok(c, k, v):
+                    vals = [c[cols[k]]] if k in cols else [p["v"] for p in c["props"] if p["p"] == k]
+                    vals = [x for x in vals if x is not None]
+                    if v.strip() == "*":
+                        return bool(vals)
+                    if v.startswith("*") or v.endswith("*"):
+                        core = v[1:] if v.startswith("*") else v
+                        pre = ".*" if v.startswith("*") else ""
+                        post = ""
+                        if core.endswith("*"):
+                            core, post = core[:-1], ".*"
+                        rx = pre + "".join(".*" if ch == "%" else "." if ch == "_" else re.escape(ch) for ch in core) + post
+                        return any(re.fullmatch(rx, x, re.I | re.S) for x in vals)
+                    return v in vals
+                index = {e["pid"]: e["creds"] for e in op.get("index", [])}
+                want = set()
+                for r_ in cur["rows"]:
+                    if r_["validated"] and r_["exp"] > op["now"] - ops[start]["t0"] and (not q or any(all(term_ok(c, k, v) for k, v in q) for c in index.get(r_["id"], []))):
+                        want.add(r_["id"])
+                if got - want:
+                    flag("search-with-query-unsound", f"Search({sid}, {q}) returned {sorted(got - want)}: not a validated unexpired entry of the list with ONE credential fulfilling every term", i)
+                if want - got:
+                    flag("search-with-query-incomplete", f"Search({sid}, {q}) misses {sorted(want - got)}", i)
+        elif kind == "nrestart":
+            dist["nrestart"] += 1
+            now_lists = parse_lists(line)
+            if not line.startswith("nrestart ok") or (lists and now_lists != lists):
+                flag("restart-changed-a-list", f"the node came back ({line.split()[1]}) with other lists / seeds / timestamps than it went down with", i)
         elif kind == "nget":
             dist["nget:" + ("served" if sid in conf["served"] else "known" if sid in conf["all"] else "unknown") + ":" + line.split()[1].split(":http")[0]] += 1
             m = re.match(r"^nget rows seed=(\S+) ts=(\d+) \[(.*?)\] k=", line)
